@@ -64,12 +64,58 @@ func c15obj(name, ver string, hops int) map[string]any {
 	return map[string]any{"apiVersion": "stable.example.com/" + ver, "kind": "CronTab", "metadata": map[string]any{"name": name}, "spec": map[string]any{"hops": hops}}
 }
 
-func c15run(steps []c15step, oneBinding bool) (sig, what, outcome string) {
-	cfg, names := c15hook, []string{"up12", "up23"}
-	if oneBinding {
-		cfg, names = c15hookOneBinding, []string{"up", "up"}
+// the rules of one CRD spread over two hooks
+const c15hookA = `configVersion: v1
+kubernetesCustomResourceConversion:
+- name: up12
+  crdName: crontabs.stable.example.com
+  conversions:
+  - fromVersion: v1
+    toVersion: v2
+`
+const c15hookB = `configVersion: v1
+kubernetesCustomResourceConversion:
+- name: up23
+  crdName: crontabs.stable.example.com
+  conversions:
+  - fromVersion: v2
+    toVersion: v3
+`
+
+// conversion bindings that belong to a group (the way to include snapshots): still Conversion contexts
+const c15hookGrouped = `configVersion: v1
+kubernetes:
+- name: kg
+  kind: ConfigMap
+  group: main
+kubernetesCustomResourceConversion:
+- name: up12
+  crdName: crontabs.stable.example.com
+  group: main
+  conversions:
+  - fromVersion: v1
+    toVersion: v2
+- name: up23
+  crdName: crontabs.stable.example.com
+  group: main
+  conversions:
+  - fromVersion: v2
+    toVersion: v3
+`
+
+func c15run(steps []c15step, variant string) (sig, what, outcome string) {
+	names := []string{"up12", "up23"}
+	hooks := []fxHook{{Name: "conv.sh", Config: c15hook}}
+	switch variant {
+	case "one-binding":
+		names = []string{"up", "up"}
+		hooks = []fxHook{{Name: "conv.sh", Config: c15hookOneBinding}}
+	case "two-hooks":
+		hooks = []fxHook{{Name: "a-conv.sh", Config: c15hookA}, {Name: "b-conv.sh", Config: c15hookB}}
+	case "grouped":
+		hooks = []fxHook{{Name: "conv.sh", Config: c15hookGrouped}}
 	}
-	fx := newFixture([]fxHook{{Name: "conv.sh", Config: cfg}, {Name: "jobs.sh", Config: c15hookJobs}})
+	fx := newFixture(append(hooks, fxHook{Name: "jobs.sh", Config: c15hookJobs}))
 	defer fx.close()
 	defer func() {
 		if r := recover(); r != nil {
@@ -271,19 +317,19 @@ func TestVerifC15b(t *testing.T) {
 	var ord int64
 	for _, k1 := range kinds {
 		for _, k2 := range kinds {
-			for _, oneBinding := range []bool{false, true} {
+			for _, variant := range []string{"", "one-binding", "two-hooks", "grouped"} {
 				ord++
 				if !(vres.Mine(ord) || r.Replaying()) {
 					continue
 				}
 				key := k1 + "," + k2
-				if oneBinding {
-					key += "|one-binding"
+				if variant != "" {
+					key += "|" + variant
 				}
 				if !r.Want(key) {
 					continue
 				}
-				sig, what, outcome := c15run([]c15step{{k1}, {k2}}, oneBinding)
+				sig, what, outcome := c15run([]c15step{{k1}, {k2}}, variant)
 				r.Eval(1)
 				r.Transition(2)
 				if sig != "" {
